@@ -318,7 +318,10 @@ func genHistory(r *vh.Rng) *histT {
 
 // uniformStep gives every node the same utilisation; ok=false (giveUp) if even that is
 // not accepted by the float guard (never observed; the caller then shortens the history)
+var uniformFallbacks, shortenedHistories int // generator statistics, printed on stderr
+
 func uniformStep(r *vh.Rng, cand []hnode, pivots []int64, specs []specT) (stepT, []hnode, bool) {
+	uniformFallbacks++
 	u := utilValue(r, 3, pivots)
 	if u < 0 {
 		u = 0
@@ -332,6 +335,7 @@ func uniformStep(r *vh.Rng, cand []hnode, pivots []int64, specs []specT) (stepT,
 	if floatOrderExact(&input{nodes: st.nodes, metrics: st.metrics, specs: specs}) {
 		return st, out, false
 	}
+	shortenedHistories++
 	return stepT{}, cand, true
 }
 
